@@ -1329,6 +1329,36 @@ def _generators(vk, fam):
                     rad = np.linalg.norm(m.points - np.array(cen), axis=1)
                     B.check(bool(np.all(rad <= radius * (1 + 1e-9))), inp, "point outside the circle")
         B.close()
+        # value / exponent ("shape parameters of the embedded rectangle") and decimals ("rounding point coordinates to
+        # avoid non-connected sections"): whatever the shape of the embedded rectangle, the mesh is still an oriented tiling
+        # of the inscribed polygon with connected sections (as many points and cells as with the default options, no
+        # coincident points); a point moves by at most half a rounding unit (times the radius) against the default rounding
+        B = Bounded(vk, "Circle(value=, exponent=, decimals=): oriented quads tile the polygon inscribed in the sections, sections connected, no coincident points", "n <= 4, sections full / half / single, (value, exponent) in {0, 0.05, 0.2, -0.1} x {1, 2, 3} and (0.3, 1), decimals in {4, 8, 13}")
+        for n in N:
+            for sections in ([0, 90, 180, 270], [0, 90], [30]):
+                ref = fem.Circle(radius=2.5, centerpoint=[1.0, -2.0], n=n, sections=sections)
+                opts = [dict(value=v, exponent=e) for v in (0.0, 0.05, 0.2, -0.1) for e in (1, 2, 3)] + [dict(value=0.3, exponent=1)] + [dict(decimals=d) for d in (4, 8, 13)] + [dict(value=0.2, exponent=3, decimals=6)]
+                for kw in opts:
+                    m = fem.Circle(radius=2.5, centerpoint=[1.0, -2.0], n=n, sections=sections, **kw)
+                    ori, used, V = _native_inv(m)
+                    seg = 2 * (n - 1)
+                    meas = len(sections) * seg * 0.5 * 2.5**2 * np.sin(np.pi / 2 / seg)
+                    inp = f"Circle(radius=2.5, centerpoint=[1.0, -2.0], n={n}, sections={sections}, {kw})"
+                    unit = 2.5 * 10.0 ** (-kw.get("decimals", 10))
+                    B.check(ori, inp, "cell not positively oriented")
+                    B.check(used, inp, "unused points")
+                    B.check(abs(V.sum() - meas) < max(1e-8, 8 * len(m.cells) * unit) * meas, inp, f"sum of areas {V.sum()} != inscribed polygon {meas}")
+                    B.check(_min_point_distance(m.points) > 1e-9, inp, "coincident points")
+                    B.check(len(m.points) == len(ref.points) and len(m.cells) == len(ref.cells), inp, f"{len(m.points)} points / {len(m.cells)} cells, default options give {len(ref.points)} / {len(ref.cells)} (sections not connected?)")
+                    rad = np.linalg.norm(m.points - np.array([1.0, -2.0]), axis=1)
+                    B.check(bool(np.all(rad <= 2.5 * (1 + 1e-9) + unit)), inp, "point outside the circle")
+                    if set(kw) == {"decimals"}:
+                        d = np.abs(m.points[:, None, :] - ref.points[None, :, :]).max(axis=2).min(axis=1).max()
+                        B.check(d <= 0.5 * unit * (1 + 1e-6) + 1e-9, inp, f"a point moved by {d} against the default rounding (> half a rounding unit)")
+        B.close()
+        m = fem.Circle(n=4, value=0.3, exponent=5)
+        if not _native_inv(m)[0]:
+            vk.note("C16 observation (not an obligation: the shape parameters of the embedded rectangle have no documented range and the property's quantifier names bounds, point counts and section angles only): a large `value` with a steep `exponent` on a fine grid folds the cells at the corner of the embedded rectangle, e.g. Circle(n=4, value=0.3, exponent=5), Circle(n=6, value=0.2, exponent=8), Circle(n=3, value=0.4, exponent=2) contain cells that are not positively oriented; the stand-in covers (value, exponent) in {0, 0.05, 0.2, -0.1} x {1, 2, 3} and (0.3, 1)")
     elif fam == "triangle":
         vk.real(fem.mesh.Triangle)
         B = Bounded(vk, "Triangle: oriented quads tile the (counter-clockwise) triangle, no coincident points", "n <= 4, 3 triangles")
@@ -1342,6 +1372,19 @@ def _generators(vk, fam):
                 B.check(abs(V.sum() - meas) < 1e-9 * meas, inp, f"sum of areas {V.sum()} != {meas}")
                 B.check(_min_point_distance(m.points) > 1e-9, inp, "coincident points")
                 B.check(len(m.cells) == 3 * (n - 1) ** 2 and len(m.points) == 3 * (n - 1) ** 2 + 3 * (n - 1) + 1, inp, "point / cell count")
+                # decimals= ("rounding point coordinates to avoid non-connected sections"): the three sections stay connected
+                # (same counts), the triangle is still tiled, a point moves by at most half a rounding unit
+                for dec in (3, 6, 14):
+                    md = fem.mesh.Triangle(a=a, b=b, c=c, n=n, decimals=dec)
+                    ori, used, V = _native_inv(md)
+                    inp = f"Triangle(a={a}, b={b}, c={c}, n={n}, decimals={dec})"
+                    unit = 10.0 ** (-dec)
+                    B.check(ori and used, inp, "orientation / unused points")
+                    B.check(abs(V.sum() - meas) < max(1e-9, 40 * unit) * meas, inp, f"sum of areas {V.sum()} != {meas}")
+                    B.check(_min_point_distance(md.points) > 1e-9, inp, "coincident points")
+                    B.check(len(md.cells) == len(m.cells) and len(md.points) == len(m.points), inp, f"point / cell count {len(md.points)} / {len(md.cells)} (sections not connected?)")
+                    d = np.abs(md.points[:, None, :] - m.points[None, :, :]).max(axis=2).min(axis=1).max()
+                    B.check(d <= 0.5 * unit * (1 + 1e-6) + 1e-9, inp, f"a point moved by {d} against the default rounding (> half a rounding unit)")
         B.close()
     elif fam == "lagrange":
         vk.real(fem.mesh.RectangleArbitraryOrderQuad)
@@ -1437,6 +1480,35 @@ def _generators(vk, fam):
                             B.check(np.allclose(r.points[:, axis], mesh.points[:, axis]), inp, "coordinate along the axis changed")
                     same = mesh.add_runouts(values=[0.0, 0.0], axis=axis)
                     B.check(np.allclose(same.points, mesh.points), f"{mesh.cell_type} n={n} add_runouts(values=0)", "not the identity")
+                    # centerpoint= ("center-point coordinates") and mask= ("points to be considered"): points outside the mask
+                    # do not move at all; a point of the mask keeps its coordinate along the axis and its offset from the
+                    # centerpoint perpendicular to the axis is scaled by 1 + values[i] * (|distance along the axis| / H)**exponent
+                    # (H: distance of the farthest end from the centerpoint plane: centre plane -> 1, ends -> 1 + values[i])
+                    lo, hi = mesh.points[:, axis].min(), mesh.points[:, axis].max()
+                    perp = [k for k in range(mesh.dim) if k != axis]
+                    for cen_axis in ((lo + hi) / 2, lo, hi):
+                        cen = np.array([0.4, -0.3, 0.2])
+                        cen[axis] = cen_axis
+                        for cen_arg in (list(cen[: mesh.dim]), list(cen)):
+                            masks = {"default": None, "bool": mesh.points[:, perp[0]] > 0.0, "ids": np.arange(mesh.npoints)[::2], "empty": np.zeros(mesh.npoints, dtype=bool), "all-ids": np.arange(mesh.npoints)}
+                            for mname, msk in masks.items():
+                                vals, ex = [0.2, 0.05], 3
+                                kw = dict(values=vals, centerpoint=cen_arg, axis=axis, exponent=ex, **({} if msk is None else {"mask": msk}))
+                                P0 = mesh.points.copy()
+                                r = mesh.add_runouts(**kw)
+                                inp = f"{mesh.cell_type} n={n} add_runouts(values={vals}, centerpoint={cen_arg}, axis={axis}, exponent={ex}, mask={mname})"
+                                sel = np.ones(mesh.npoints, dtype=bool) if msk is None else (msk if msk.dtype == bool else np.isin(np.arange(mesh.npoints), msk))
+                                H = np.abs(P0[:, axis] - cen[axis]).max()
+                                spec = P0.copy()
+                                for i, k in enumerate(perp):
+                                    spec[sel, k] = cen[k] + (P0[sel, k] - cen[k]) * (1 + vals[i] * (np.abs(P0[sel, axis] - cen[axis]) / H) ** ex)
+                                # (the code shifts by the centerpoint and back: (p - c) + c, one rounding error at most)
+                                B.check(np.allclose(r.points[~sel], P0[~sel], rtol=0, atol=4e-16 * (1 + np.abs(P0).max() + np.abs(cen).max())), inp, f"a point outside the mask moved by {np.abs(r.points[~sel] - P0[~sel]).max() if (~sel).any() else 0}")
+                                B.check(np.allclose(r.points, spec, rtol=1e-12, atol=1e-12), inp, f"points differ from the documented runout by {np.abs(r.points - spec).max()}")
+                                B.check(np.array_equal(mesh.points, P0) and r is not mesh, inp, "input mesh modified")
+                                if mname in ("default", "all-ids", "empty"):
+                                    ori, used, V = _native_inv(r)
+                                    B.check(ori and used, inp, "orientation / unused points")
             bot = fem.mesh.Line(a=0.0, b=2.0, n=3)
             bot = fem.Mesh(np.hstack([bot.points, 0.1 * bot.points**2]), bot.cells, "line")
             top = fem.Mesh(bot.points * np.array([1.0, -1.0]) + np.array([0.3, 1.5]), bot.cells, "line")
